@@ -12,7 +12,7 @@ import (
 func init() {
 	register(&propDef{
 		ID:          "C11",
-		Explanation: "Decides, for templ.ComponentHandler (go/cfg dominance and reachability, object identity through go/types): R1 the buffered path renders into the pooled byte buffer, never into the ResponseWriter; R2 every effect on the ResponseWriter (Header, WriteHeader, Write, http.Error, delegation to the error handler) is dominated by the Render call; R3 the effects inside the `err != nil` branch are the only ones reachable when rendering failed — that branch returns on every path and no success effect is reachable from an error effect; R4 the success body is Bytes() of that same buffer, written exactly once, after the status; R5 ServeHTTP takes the buffered path unless StreamResponse is set; the pooled buffer is released only by a defer (no use after release). R6 no function of templ or templ/runtime uses the memory of a pooled buffer after the buffer went back to the pool (a slice from Bytes() returned past a deferred release, or used after a direct release): the response body would be overwritten by another request's render. R7 (= C10.R6) every object that goes into the buffer pools is reset or freshly empty, so a response never starts with bytes of an earlier (failed) render. R8 the ErrorHandler field is assigned the option's parameter itself (or a wrapper whose every return calls it). R9 inside package templ the StreamResponse flag is written only by an option dedicated to it: unconditionally, in a function that sets no other handler field, and no constructor presets it. NOT decided: what a configured error handler itself writes. R3 also: the error side of the buffered handler writes no body to the ResponseWriter itself (helpers followed). R10/R11 no error result of packages templ / runtime is dropped or detected and then not returned.",
+		Explanation: "Decides, for templ.ComponentHandler (go/cfg dominance and reachability, object identity through go/types): R1 the buffered path renders into the pooled byte buffer, never into the ResponseWriter; R2 every effect on the ResponseWriter (Header, WriteHeader, Write, http.Error, delegation to the error handler) is dominated by the Render call; R3 the effects inside the `err != nil` branch are the only ones reachable when rendering failed — that branch returns on every path and no success effect is reachable from an error effect; R4 the success body is Bytes() of that same buffer, written exactly once, after the status; R5 ServeHTTP takes the buffered path unless StreamResponse is set; the pooled buffer is released only by a defer (no use after release). R6 no function of templ or templ/runtime uses the memory of a pooled buffer after the buffer went back to the pool (a slice from Bytes() returned past a deferred release, or used after a direct release): the response body would be overwritten by another request's render. R7 (= C10.R6) every object that goes into the buffer pools is reset or freshly empty, so a response never starts with bytes of an earlier (failed) render. R8 the ErrorHandler field is assigned the option's parameter itself (or a wrapper whose every return calls it). R9 inside package templ the StreamResponse flag is written only by an option dedicated to it: unconditionally, in a function that sets no other handler field, and no constructor presets it. NOT decided: what a configured error handler itself writes. R3 also: the error side of the buffered handler writes no body to the ResponseWriter itself (helpers followed). R10/R11 no error result of packages templ / runtime is dropped or detected and then not returned. R3 also: every error path of the buffered handler reaches http.Error or the error handler (helpers that are handed w are enumerated), and the WriteHeader of the configured status depends on nothing but `Status != 0`. R12 a buffer created for output starts empty (bytes.NewBuffer(make([]byte, n)) starts with n zero bytes).",
 		Assumptions: []string{"Component.Render writes only to the writer it is given"},
 		Trusted:     []string{"go/types", "x/tools go/packages, go/cfg"},
 		Run:         runC11,
@@ -23,6 +23,7 @@ func runC11(c *Ctx) {
 	c.load(".", "./runtime")
 	errorsNotLost(c, "C11.R10", ".", "runtime")
 	errorsFoundAreReported(c, "C11.R11", ".", "runtime")
+	freshBuffersAreEmpty(c, "C11.R12", ".", "runtime")
 	p := c.pkg(".")
 	info := p.TypesInfo
 	fd := findFunc(p, "ComponentHandler", "ServeHTTPBuffered")
@@ -139,6 +140,8 @@ func runC11(c *Ctx) {
 	}
 	sides := map[*ast.CallExpr]map[string]bool{}
 	var errStmts []ast.Stmt
+	var errPaths [][]ast.Stmt
+	var errPathConds []string
 	nErrPaths, nOKPaths := 0, 0
 	leak := false
 	for i, pth := range den.paths {
@@ -158,6 +161,14 @@ func runC11(c *Ctx) {
 		case "error":
 			nErrPaths++
 			errStmts = append(errStmts, pth.Trace...)
+			errPaths = append(errPaths, pth.Trace)
+			{
+				var took []string
+				for _, pc := range pth.Conds {
+					took = append(took, fmt.Sprintf("%s=%v", types.ExprString(pc.Expr), pc.Val))
+				}
+				errPathConds = append(errPathConds, strings.Join(took, ", "))
+			}
 		case "success":
 			nOKPaths++
 		}
@@ -287,6 +298,190 @@ func runC11(c *Ctx) {
 			})
 			return res
 		}
+		// the configured status is sent whenever one is configured: the WriteHeader(<h>.Status) of the success side (in
+		// the handler or in a helper that is handed w) is conditional on nothing but `<h>.Status != 0`
+		{
+			var statusCall *ast.CallExpr
+			var statusIn *ast.FuncDecl
+			var look func(root ast.Node, in *ast.FuncDecl, depth int)
+			look = func(root ast.Node, in *ast.FuncDecl, depth int) {
+				ast.Inspect(root, func(n ast.Node) bool {
+					call, ok := n.(*ast.CallExpr)
+					if !ok {
+						return true
+					}
+					if se, ok := call.Fun.(*ast.SelectorExpr); ok && se.Sel.Name == "WriteHeader" && len(call.Args) == 1 {
+						if ase, ok := ast.Unparen(call.Args[0]).(*ast.SelectorExpr); ok && ase.Sel.Name == "Status" {
+							statusCall, statusIn = call, in
+						}
+					}
+					if fn := calleeOf(info, call); fn != nil && fn.Pkg() == p.Types && depth < 2 {
+						handsW := false
+						for _, a := range call.Args {
+							if t := info.TypeOf(a); t != nil && t.String() == "net/http.ResponseWriter" {
+								handsW = true
+							}
+						}
+						if handsW {
+							for _, hfd := range allFuncDecls(p) {
+								if info.Defs[hfd.Name] == types.Object(fn) && hfd.Body != nil {
+									look(hfd.Body, hfd, depth+1)
+								}
+							}
+						}
+					}
+					return true
+				})
+			}
+			look(fd.Body, fd, 0)
+			if statusCall != nil {
+				stTxt := types.ExprString(ast.Unparen(statusCall.Args[0]))
+				isZeroTest := func(cond ast.Expr, wantNonZero bool) bool {
+					be, ok := ast.Unparen(cond).(*ast.BinaryExpr)
+					if !ok {
+						return false
+					}
+					x, y := types.ExprString(ast.Unparen(be.X)), types.ExprString(ast.Unparen(be.Y))
+					if y == stTxt {
+						x, y = y, x
+					}
+					if x != stTxt || y != "0" {
+						return false
+					}
+					if wantNonZero {
+						return be.Op == token.NEQ || be.Op == token.GTR
+					}
+					return be.Op == token.EQL || be.Op == token.LEQ
+				}
+				// the conditions the call is under, innermost first
+				var conds []string
+				okCond := true
+				ast.Inspect(statusIn.Body, func(n ast.Node) bool {
+					is, ok := n.(*ast.IfStmt)
+					if !ok || !strings.Contains(types.ExprString(is.Cond), stTxt) {
+						return true // (conditions that do not look at the status — the error test — are the other clauses' business)
+					}
+					if is.Body.Pos() <= statusCall.Pos() && statusCall.End() <= is.Body.End() {
+						conds = append(conds, types.ExprString(is.Cond))
+						if !isZeroTest(is.Cond, true) {
+							okCond = false
+						}
+					}
+					// an early return in front of the call
+					if is.End() <= statusCall.Pos() && is.Else == nil && len(is.Body.List) > 0 {
+						if _, isRet := is.Body.List[len(is.Body.List)-1].(*ast.ReturnStmt); isRet {
+							conds = append(conds, "not ("+types.ExprString(is.Cond)+")")
+							if !isZeroTest(is.Cond, false) {
+								okCond = false
+							}
+						}
+					}
+					return true
+				})
+				c.check(okCond, "C11.R3", key+"|configured-status-sent-whenever-set", c.pos(statusCall.Pos()), "WriteHeader("+stTxt+") depends only on "+stTxt+" != 0 "+fmt.Sprint(conds),
+					fmt.Sprintf("the configured status is sent only under %v — a condition other than `%s != 0`: for some configured values (codes net/http has no text for, such as 419 or 599) the document goes out with 200 instead, an error page with a success status", conds, stTxt))
+			}
+		}
+		// every error path answers: it reaches http.Error(w, …) or <handler>.ServeHTTP(w, r) — itself, or in a helper it
+		// hands w to, on every path of that helper. A path that returns without either (an early return for "the client
+		// has gone anyway") sends nothing: net/http then answers 200 with an empty body.
+		isAnswer := func(call *ast.CallExpr) bool {
+			if fn := calleeOf(info, call); fn != nil && fullName(fn) == "net/http.Error" {
+				return true
+			}
+			if se, ok := ast.Unparen(call.Fun).(*ast.SelectorExpr); ok && se.Sel.Name == "ServeHTTP" && len(call.Args) == 2 {
+				if t := info.TypeOf(call.Args[0]); t != nil && t.String() == "net/http.ResponseWriter" {
+					return true
+				}
+			}
+			return false
+		}
+		var stmtAnswers func(st ast.Stmt, depth int) (bool, string)
+		stmtAnswers = func(st ast.Stmt, depth int) (bool, string) {
+			ans, why := false, ""
+			ast.Inspect(st, func(n ast.Node) bool {
+				call, ok := n.(*ast.CallExpr)
+				if !ok || ans {
+					return !ans
+				}
+				if isAnswer(call) {
+					ans = true
+					return false
+				}
+				fn := calleeOf(info, call)
+				if fn == nil || fn.Pkg() != p.Types || depth >= 2 {
+					return true
+				}
+				handsW := false
+				for _, a := range call.Args {
+					if t := info.TypeOf(a); t != nil && t.String() == "net/http.ResponseWriter" {
+						handsW = true
+					}
+				}
+				if !handsW {
+					return true
+				}
+				for _, hfd := range allFuncDecls(p) {
+					if info.Defs[hfd.Name] != types.Object(fn) || hfd.Body == nil {
+						continue
+					}
+					hden := &denum{info: info, pkg: p.Types, inits: map[types.Object]ast.Expr{}, limit: 2000, opaqueLoops: true}
+					hden.finish(hden.run(hfd.Body.List, []dstate{{env: map[types.Object]ast.Expr{}}}))
+					if hden.undecided != "" {
+						why = hfd.Name.Name + ": " + hden.undecided
+						return true
+					}
+					all := len(hden.paths) > 0
+					for _, hp := range hden.paths {
+						pathAns := false
+						for _, hs := range hp.Trace {
+							if a, _ := stmtAnswers(hs, depth+1); a {
+								pathAns = true
+							}
+						}
+						if !pathAns {
+							all = false
+							var took []string
+							for _, pc := range hp.Conds {
+								took = append(took, fmt.Sprintf("%s=%v", types.ExprString(pc.Expr), pc.Val))
+							}
+							where := "its end"
+							if hp.Ret != nil {
+								where = c.pos(hp.Ret.Pos())
+							}
+							why = fmt.Sprintf("%s returns at %s without answering (%s)", hfd.Name.Name, where, strings.Join(took, ", "))
+						}
+					}
+					if all {
+						ans = true
+					}
+				}
+				return true
+			})
+			return ans, why
+		}
+		silent := ""
+		for pi, tr := range errPaths {
+			answered := false
+			why := ""
+			for _, st := range tr {
+				a, w := stmtAnswers(st, 0)
+				if a {
+					answered = true
+				}
+				if w != "" {
+					why = w
+				}
+			}
+			if !answered && silent == "" {
+				silent = why
+				if silent == "" {
+					silent = "the error path taken on " + errPathConds[pi] + " reaches neither http.Error nor an error handler"
+				}
+			}
+		}
+		c.check(silent == "", "C11.R3", key+"|error-branch-always-answers", c.pos(fd.Pos()), fmt.Sprintf("each of the %d error path(s) reaches http.Error or the error handler", len(errPaths)),
+			"a failed render can leave the buffered handler without any response being written ("+silent+"): net/http then sends 200 OK with an empty body — a success status for a failed render, and the configured error handler is never asked")
 		bodyWrite := findBodyWrite(errRegion, 0)
 		c.check(bodyWrite == "", "C11.R3", key+"|error-branch-writes-no-body-itself", c.pos(fd.Pos()), "the error side answers through http.Error or the error handler only",
 			"the error branch of the buffered handler writes a body to the ResponseWriter itself ("+bodyWrite+"): nothing has set an error status on that path, so the client receives 200 (or the configured success status) with the error text — in buffered mode nothing has been sent yet, whatever the StreamResponse field says")
